@@ -14,6 +14,7 @@ import Proofs.C11_Setters
 import Proofs.C11_Fixpoint
 import Proofs.C11_Axes
 import Proofs.C11_Init
+import Proofs.C11_Cubic
 
 namespace Atomman.C11
 open Atomman.Gen
